@@ -71,4 +71,17 @@ def check_case(case, ctx):
             break
         if len(v) >= 3:
             break
+    # the command line entry point (failing mode raises on a bad plotfile; here it must simply return)
+    if only is None:
+        import amr_kitchen.taste.cli as cli
+        from . import common
+        for flags in ([], ["-bc"], ["-nh"], ["-ns", "-bc"], ["-nf"], ["-bd"]):
+            for limit in [None, 0]:
+                argv = ["taste", "src", "-v", "0"] + flags + (["-l", str(limit)] if limit is not None else [])
+                ctx.counters["cli_runs"] += 1
+                try:
+                    common.run_main(cli.main, argv)
+                except Exception as e:
+                    v.append(f"taste command line {argv[1:]} failed on a well-formed plotfile: {type(e).__name__}: {str(e)[:200]}")
+                    break
     return v
